@@ -236,7 +236,7 @@ def extract(unit, ex):
     elif kind == "fn":
         lo, hi = 0, len(toks)
         if ex.get("impl"):
-            lo, hi = R.find_impl(toks, m, ex["impl"])
+            lo, hi = R.find_impl(toks, m, ex["impl"], ex.get("impl_nth", 0))
             s, bo, bc = R.find_fn(toks, m, ex["name"], lo + 1, hi, ex.get("nth", 0))
         elif ex.get("nested"):
             s, bo, bc = R.find_fn_anywhere(toks, m, ex["name"], ex.get("nth", 0))
@@ -335,13 +335,15 @@ def extract(unit, ex):
             frag = R.r10_any_idioms(frag, st)
         if cfg.get("array_idioms"):
             frag = R.r10_array_idioms(frag, st)
+        if cfg.get("strmatch"):
+            frag = R.r9_strmatch(frag, st)
         if cfg.get("strlit"):
             frag = R.r9_strlit(frag, st, cfg["strlit"])
         if cfg.get("select"):
             frag = R.r6_select(frag, st)
         if cfg.get("select_full"):
             frag = R.r6b_select(frag, st, fused=cfg.get("select_fused", ()))
-        frag = R.r7_env(frag, st, cfg.get("env_methods", ()), cfg.get("env_paths", ()), cfg.get("closures", ()))
+        frag = R.r7_env(frag, st, cfg.get("env_methods", ()), cfg.get("env_paths", ()), cfg.get("closures", ()), arg=cfg.get("env_arg", "env"))
         if ex.get("state"):
             frag = R.r5_state(frag, st, ex["state"])
     if cfg.get("subst"):
